@@ -366,7 +366,7 @@ def inv(p):
         ((w, c0),) = q.t.items()
         # inverse of a product of square factors that are invertible by their contracts (unitary; principal roots of
         # positive definite operands; inverses; positive diagonal eigenvalue roots): inv(w1 ... wn) = inv(wn) ... inv(w1)
-        if len(w) > 1 and all(x.rows == x.cols and (x.unitary or x.kind in ("sqrt", "inv") or (x.diag and x.kind == "eig")) for x in w):
+        if len(w) > 1 and all(x.rows == x.cols and (x.unitary or x.kind in ("sqrt", "inv", "invertible") or (x.diag and x.kind == "eig")) for x in w):
             out = tuple((x.dagger() if x.unitary else _inv_atom(x)) for x in reversed(w))
             return NC({out: A.ONE / c0}, p.cols, p.rows)
     a, c = as_atom(p, "U")
@@ -562,6 +562,35 @@ def eigh(p, hermitian_solver=True):
         _renormalise_defs()
     Dh, V = C.eig_of[a]
     return Dh, V, c
+
+
+def eigh_general(p):
+    """Assumed contract of linalg.eigh for a Hermitian matrix M (not necessarily definite): M = V Lam V† with V unitary and Lam real
+    diagonal (ascending eigenvalues on its diagonal)."""
+    C = ctx()
+    C.assumed.add("eigh")
+    p = normalise(p)
+    if p.rows != p.cols or not is_zero(p - p.dagger()):
+        raise A.OutsideSubset("eigh of a matrix that is not provably Hermitian")
+    if len(p.t) == 1:
+        # the matrix is already known by its decomposition (a second request for the same matrix)
+        ((w, c0),) = p.t.items()
+        if len(w) == 3 and w[0].kind == "eig" and w[0].unitary and w[2] is w[0].dagger() and w[1].kind == "eig" and w[1].diag:
+            return w[1], w[0], c0
+    a, c = as_atom(p, "M")
+    if a is None:
+        raise A.OutsideSubset("eigh of a scalar matrix")
+    if not hasattr(C, "eigh_of"):
+        C.eigh_of = {}
+    if a not in C.eigh_of:
+        V = Atom(f"eigvec({a.name})", a.rows, a.cols, kind="eig", data=a, unitary=True)
+        Lam = Atom(f"eigval({a.name})", a.rows, a.cols, herm=True, diag=True, real=True, kind="eig", data=a)
+        _unitary_rules(V)
+        C.rule((a,), NC({(V, Lam, V.dagger()): A.ONE}, a.rows, a.cols))
+        C.eigh_of[a] = (Lam, V)
+        _renormalise_defs()
+    Lam, V = C.eigh_of[a]
+    return Lam, V, c
 
 
 def _root_square(p):
